@@ -49,7 +49,7 @@ ConfigPaths = Union[None, FilePath, Sequence[FilePath]]
 
 _token_pattern = re.compile(r'%(.)')
 _env_pattern = re.compile(r'\${(.*?)}')
-_unsafe_user_pattern = re.compile(r'^\.\.$|^~|^[A-Za-z]:|[/\\]|\$\{.*?\}')
+_unsafe_user_pattern = re.compile(r'^\.\.?$|^~|^[A-Za-z]:|[/\\]|\$\{.*?\}')
 
 
 def _exec(cmd: str) -> bool:
@@ -718,7 +718,7 @@ class SSHServerConfig(SSHConfig):
 
            Only allow "safe" username substitutions. Unsafe usernames are:
 
-               - a username of exactly ".."
+               - a username of exactly "." or ".."
                - a username beginning with a "~"
                - a username beginning with a Windows drive letter and a ":"
                - a username containing forward or backward slashes
